@@ -56,7 +56,7 @@ def parse_case(line):
     assert t[0] == "M"
     c.mbase, c.msize = int(t[1]), int(t[2])
     c.mods = [(c.mbase, c.msize, True)]
-    c.modflags = [1]          # 0 = the supplier has no symbols for the module, 1 = symbols, 2 = a symbol file that does not parse
+    c.modflags = [1]          # 0 = the supplier has no symbols for the module, 1 = symbols, 2 = a symbol file that does not parse, 3 = another symbol file
     i = 3
     if t[i] == "X":
         k = int(t[i + 1])
@@ -360,9 +360,9 @@ def measure(lines):
         mr = [rng_func(b, sz) if sz <= U32 else None for (b, sz, _) in c.mods]
         for i, (b, sz, hs) in enumerate(c.mods[1:], 1):
             r = mr[i]
-            inc("extra module: supplier", {0: "unknown to the supplier (NotFound)", 1: "symbol file", 2: "symbol file that does not parse"}[c.modflags[i]])
+            inc("extra module: supplier", {0: "unknown to the supplier (NotFound)", 1: "symbol file", 2: "symbol file that does not parse", 3: "another symbol file"}[c.modflags[i]])
             if r is not None and any(in_r(r, q) for q in c.qs):
-                inc("extra module looked up by a query", {0: "unknown to the supplier", 1: "symbol file", 2: "corrupt symbol file"}[c.modflags[i]])
+                inc("extra module looked up by a query", {0: "unknown to the supplier", 1: "symbol file", 2: "corrupt symbol file", 3: "another symbol file"}[c.modflags[i]])
             if r is None:
                 inc("extra module", "empty / not representable (base+size > 2^64-1)")
             elif mr[0] and r[0] <= mr[0][1] and mr[0][0] <= r[1]:
@@ -471,7 +471,7 @@ class C11(PropBase):
     bins = ["c11"]
     rule = ("case = records of one symbol file (FILE, INLINE_ORIGIN inside/outside FUNC blocks, PUBLIC, FUNC with line and "
             "multi-range INLINE records, STACK WIN) + module list (module 0 = base/size with symbols, optional further modules "
-            "before/inside/after it and at the top of the address space, with symbols, unknown to the supplier, or with a symbol file that does not parse) + query instructions (every "
+            "before/inside/after it and at the top of the address space, with the same symbols, with another symbol file, unknown to the supplier, or with a symbol file that does not parse) + query instructions (every "
             "record boundary +-1, one below the module, module boundaries); the harness prints the .sym text (names decorated "
             "with spaces, parentheses, templates, tabs, non-ASCII; `m` flags; sparse u32 ids), parses it with the real parser and "
             "symbolicates through SymbolFile::fill_symbol, through walk_stack/fill_source_line_info/Symbolizer::fill_symbol and "
@@ -612,7 +612,8 @@ class C11(PropBase):
             hs = rng.chance(3, 4)
             # second pass: a module without usable symbols is either unknown to the supplier (0) or has a symbol file that
             # does not parse (2) - decided by the values already drawn, so the random stream is the one of the earlier rounds
-            extra.append((max(0, min(b, U64)), sz, 1 if hs else (2 if (b + sz) % 2 else 0)))
+            # 3 = the supplier has ANOTHER valid symbol file for the module (one FUNC f9999 over [0, 0xfffffffe])
+            extra.append((max(0, min(b, U64)), sz, (3 if (b + sz) % 3 == 0 else 1) if hs else (2 if (b + sz) % 2 else 0)))
         return extra
 
     def queries(self, rng, mbase, items, cap, extra=()):
@@ -993,7 +994,12 @@ class C11(PropBase):
                     return "walk_stack attached module %d to instruction %d outside its range" % (idx, q)
                 fn2, src2, inl2 = parse_out(so)
                 mb, _, hs = c.mods[idx]
-                if not hs:
+                if c.modflags[idx] == 3:
+                    # the module's own symbol file is "FUNC 0 ffffffff 0 f9999": every address of the module is in that FUNC
+                    if (fn2, src2, inl2) != ((9999, mb, 0), None, []):
+                        return ("module %d has its own symbol file (one FUNC 9999 at 0 covering it), but the frame at %d is %s %s %s: "
+                                "symbolicated from another module's file" % (idx, q, fn2, src2, inl2))
+                elif not hs:
                     if fn2 or src2 or inl2:
                         return "frame at %d symbolicated although module %d has no symbols" % (q, idx)
                 else:
@@ -1035,7 +1041,7 @@ class C11(PropBase):
             elif i not in looked_up:
                 want = "-"
             else:
-                want = {0: "00", 1: "10", 2: "11"}[c.modflags[i]]
+                want = {0: "00", 1: "10", 2: "11", 3: "10"}[c.modflags[i]]
             if e != want:
                 return ("Symbolizer::stats for module %d is %s, expected %s (loaded,corrupt; - = no entry: the module was never looked up)"
                         % (i, e, want))
